@@ -58,7 +58,8 @@ pub fn check_case(rep: &mut Report, model: &mut Model, kc: &KeyCtx, p: &[u8], st
         rep.branch("enc.trace");
     }
     if with_model && stack == L_COMP {
-        // the compression reader model over the brotli crate's own decoding of every block (table);
+        // the compression reader model, decoding every block with its own RFC 7932 decoder (the brotli
+        // crate's decoding of the blocks is sent along as a cross-check);
         // reads are replayed with the lengths the implementation returned (its decompressor may
         // return short reads, the model reads fully)
         let comp = &bytes[junk..];
@@ -70,6 +71,10 @@ pub fn check_case(rep: &mut Report, model: &mut Model, kc: &KeyCtx, p: &[u8], st
             let m = model.call(json!({"cmd":"comp.trace","stream":hx(comp),"blocks":blocks,"history":hist2}));
             rep.traces_validated += 1;
             let want: Vec<Value> = res.iter().map(hres_json).collect();
+            if m["table_mismatch"].as_u64().unwrap_or(0) != 0 {
+                rep.violation("corr", "corr:C11/brotli-native", json!({}), "the model's RFC 7932 decoder and the brotli crate decode a block differently", json!({"case": case(&hist), "model": m}));
+                return false;
+            }
             if m["results"].as_array() != Some(&want) || m["init"] != "ok" {
                 let at = m["results"].as_array().map(|a| a.iter().zip(&want).position(|(x, y)| x != y)).flatten();
                 rep.violation("corr", "corr:C11/comp.trace", json!({}),
